@@ -85,6 +85,43 @@ def permute(ctx, shape):
     return ctx.done(ctx.AND(*oks), obs[:3])
 
 
+def second_array(ctx, shape):
+    """the same request (same argument objects) on a second array of the same rank whose dimensions are arranged differently, and
+    then on the first one again: every answer is about the array it was asked of"""
+    nd = len(shape)
+    dims = DIMS[:nd]
+    a, ra, attrs = _build(ctx, shape, tag='a')
+    rot = dims[1:] + dims[:1]
+    shape_b = shape[1:] + shape[:1]
+    b, rb, _ = _build(ctx, shape_b, tag='b', dims=rot)
+    oks = []
+    obs = []
+
+    def order_for(r, moved, start):
+        i = list(r.dims).index(moved)
+        order = [k for k in range(nd) if k != i]
+        order.insert(start if start <= i else start - 1, i)
+        return order
+    for d in dims:
+        for start in (0, nd):
+            for arr, r in ((a, ra), (b, rb), (a, ra)):
+                oks.append(_ok(ctx, ctx.call(lambda: arr.rollaxis(d, start)), r.transpose(order_for(r, d, start)), attrs, obs))
+        for e in dims:
+            if e == d:
+                continue
+            for arr, r in ((a, ra), (b, rb), (a, ra)):
+                i, j = list(r.dims).index(d), list(r.dims).index(e)
+                order = list(range(nd))
+                order[i], order[j] = order[j], order[i]
+                oks.append(_ok(ctx, ctx.call(lambda: arr.swapaxes(d, e)), r.transpose(order), attrs, obs))
+    for perm in itertools.permutations(dims):
+        names = list(perm)             # one list object, handed to both arrays
+        for arr, r in ((a, ra), (b, rb), (a, ra)):
+            oks.append(_ok(ctx, ctx.call(lambda: arr.transpose(names)), r.transpose([list(r.dims).index(x) for x in perm]), attrs, obs))
+        oks.append(names == list(perm))
+    return ctx.done(ctx.AND(*oks), obs[:3])
+
+
 def _insert(ref, pos, name, labels):
     """reference: new dimension `name` with `labels` at position pos, input replicated along it"""
     dims = list(ref.dims)
@@ -271,5 +308,7 @@ def templates():
     S, P, Q = [['x', 'y'], [2, 1]], [['x'], [2]], [['z'], [2]]
     for k, specs in enumerate(([S, P, Q], [P, Q, S], [P, S, Q], [S, P], [P, S], [Q, S], [[['y'], [1]], [[], []]], [[[], []], [['y'], [1]], P])):
         add('broadcast-arrays-singleton-%d' % k, 'broadcast_arrays', cost=1, specs=specs)
+    for shape in ([2, 3], [2, 3, 2], [2, 1, 3]):
+        add('second-array-%s' % 'x'.join(map(str, shape)), 'second_array', cost=2, shape=shape)
     add('broadcast-arrays-mismatch', 'broadcast_mismatch', cost=1)
     return ts
